@@ -95,7 +95,13 @@ func coqNode(g *GraphSpec, id int, sub int) string {
 	if sub > 0 {
 		kind = "(KSub " + lib.CoqNat(sub) + ")"
 	}
-	return lib.CoqApp("Build_node", lib.CoqN(uint64(id)), kind, "None", coqIDs(dsucc), coqIDs(csucc), "[]", lib.CoqList(bs))
+	var dmap []string
+	if n := g.node(id); n != nil && n.Leaf {
+		for _, t := range dsucc {
+			dmap = append(dmap, lib.CoqPair(lib.CoqN(uint64(t)), lib.CoqN(uint64(id))))
+		}
+	}
+	return lib.CoqApp("Build_node", lib.CoqN(uint64(id)), kind, "None", coqIDs(dsucc), coqIDs(csucc), lib.CoqList(dmap), lib.CoqList(bs))
 }
 
 func coqGraph(g *GraphSpec) string {
@@ -113,17 +119,24 @@ func coqGraph(g *GraphSpec) string {
 }
 
 func coqSpec(g *GraphSpec) string {
-	var st []int
-	var reruns []string
+	var st, leaf []int
+	var reruns, inkeys []string
 	for _, n := range g.Nodes {
 		if n.St {
 			st = append(st, n.ID)
+		}
+		if n.Leaf {
+			leaf = append(leaf, n.ID)
+		}
+		if n.InKey > 0 {
+			inkeys = append(inkeys, lib.CoqPair(lib.CoqN(uint64(n.ID)), lib.CoqN(uint64(n.InKey))))
 		}
 		if len(n.Rerun) > 0 {
 			reruns = append(reruns, lib.CoqPair(lib.CoqN(uint64(n.ID)), coqIDs(n.Rerun)))
 		}
 	}
-	return lib.CoqApp("Build_gspec", coqGraph(g), lib.CoqBool(g.State), coqIDs(st), lib.CoqList(reruns), coqIDs(g.Before), coqIDs(g.After))
+	return lib.CoqApp("Build_gspec", coqGraph(g), lib.CoqBool(g.State), coqIDs(st), lib.CoqList(reruns), coqIDs(g.Before), coqIDs(g.After),
+		coqIDs(leaf), lib.CoqList(inkeys))
 }
 
 // coqState prints the canonical state value {mods, saved, seen} as (Some gstate); nil = None.
